@@ -498,7 +498,7 @@ def run(tier, seed):
     for key, wit in (("ascii.field-width", witness_d3), ("nonbigmat.IS-overflow", witness_d4)):
         if key in known:
             run.known_finding(known[key], wit()["fails"])
-    ev, cf = bounded_roundtrips(seed, tier == "quick")
+    ev, cf = report.guarded(run, bounded_roundtrips, seed, tier == "quick")
     run.bounded.append(dict(name="float: real op4.write -> load/dir over binary x endian x layout x real/complex x ndarray/scipy-sparse input x read mode (dense/sparse/auto), several matrices per "
                                  "file, magnitudes to 1e+-308, empty rows/columns/all-zero, repeated names; SciPy inputs in coo/csr/csc/lil form incl. duplicate entries, explicit zeros and unsorted indices; default form (6/1/2) of structured matrices; 65535/65536 rows; runs >= 3000 values in both byte orders",
                             evaluations=ev, failures=0 if cf is None else 1, label="bounded (never counted as proved)"))
